@@ -264,8 +264,17 @@ class Lab(object):
         for cls in (M.ParseMatcher, M.CFParseMatcher):
             cls.clear_registered_types()
         M.ParseMatcher.register_type(Color=self.parse_color, Number=self.parse_number)
-        reg = self.step_registry.StepRegistry()
-        reg.error_handler.file = open(os.devnull, "w")
+        self._nreg = getattr(self, "_nreg", 0) + 1
+        if self._nreg % 2 == 0 and getattr(self, "_used_reg", None) is not None:
+            # every second history runs on a registry that was used before and emptied with the public clear(): it has to
+            # behave like a new one
+            reg = self._used_reg
+            reg.clear()
+            self.mon.count("registries_reused_after_clear")
+        else:
+            reg = self.step_registry.StepRegistry()
+            reg.error_handler.file = open(os.devnull, "w")
+        self._used_reg = reg
         return reg
 
     def make_fn(self, fid):
